@@ -147,7 +147,7 @@ class Engine:
         self.drain_log = []    # (node, start, end) of every VecDeque/Vec drain
         self.index_log = []    # (node, frame, range kind, start, end) of every range-indexing of a slice
         self.deadline = None         # wall-clock limit of the current exploration (set by World)
-        self.max_join_states = 1500  # more states than this at one join point = state explosion, give up
+        self.max_join_states = 6000  # more states than this at one join point = state explosion, give up
         self.iter_summaries = {}
         self.return_hooks = []   # called when an inlined crate-local call returns: (eng, state, caller frame, bb, callee body, returned subtree)
         self.iter_loops = {}   # synthetic loops of closure-taking iterator adapters: (callable frame, 0) -> info
@@ -299,6 +299,13 @@ class Engine:
         if st.reads is not None:
             st.reads.add((root, path))
         return self.lazy_init(root, path, ti)
+
+    def read_len(self, st, root, path):
+        """length ghost of a container place as an integer value (a fresh unknown when the stored value is not an integer)"""
+        v = self.read(st, root, tuple(path) + ("$len",))
+        if v[0] != "i":
+            v = I(lin.var(self.fresh("len", (0, ISIZE_MAX))))
+        return v
 
     def read_elem(self, root, path, ti):
         prog = self.prog
@@ -483,6 +490,10 @@ class Engine:
                 secs = self.const_duration_secs(v[1][1])
                 if secs is not None:
                     sub[("$secs",)] = ICONST(secs)
+            if v[0] == "t" and v[1][0] == "const" and self.prog.types[c["ty"]]["k"] == "array":
+                elems = self.const_array_elems(v[1][1], c["ty"])
+                if elems is not None:
+                    sub.update(elems)
             if v[0] == "t" and v[1][0] == "str":
                 sub = {(): ("r", ("K", v[1]), (), False)}
             elif v[0] == "t" and v[1][0] == "bytes":
@@ -515,6 +526,50 @@ class Engine:
             if len(rets) != 1 or rets[0] is not st:
                 return None
         return self.subtree(st, ("L", fid, 0), (), body.local_ty(0))
+
+    def const_array_elems(self, name, ti):
+        """elements of a named constant array of integers, chars or field-less enum variants, read off the compiler's rendering
+        of the evaluated constant: {(('a', i), ...): value, ('$len',): n} or None"""
+        import re as _re
+        prog = self.prog
+        rep = None
+        for k, c in prog.consts.items():
+            if k == name or k.endswith("::" + name):
+                rep = c.get("repr")
+        if rep is None:
+            rep = name
+        rep = rep.strip()
+        if not (rep.startswith("[") and rep.endswith("]")):
+            return None
+        inner = rep[1:-1].strip()
+        if not inner:
+            return {("$len",): ICONST(0)}
+        if "(" in inner or "{" in inner or "[" in inner:
+            return None
+        items = [x.strip() for x in inner.split(",")]
+        et = prog.types[ti].get("inner")
+        ett = prog.types[et] if et is not None else None
+        out = {}
+        for i, it in enumerate(items):
+            m = _re.match(r"^(-?\d+)(_[iu]\d+|_usize|_isize)?$", it)
+            if m:
+                out[(("a", i),)] = ICONST(int(m.group(1)))
+                continue
+            m = _re.match(r"^'(\\?.)'$", it)
+            if m:
+                ch = m.group(1)
+                out[(("a", i),)] = ICONST(ord(ch[-1]) if not ch.startswith("\\") or ch == "\\\\" else {"n": 10, "t": 9, "0": 0, "r": 13}.get(ch[-1], ord(ch[-1])))
+                continue
+            if ett is not None and ett["k"] == "adt" and ett["path"] in prog.adts and prog.adts[ett["path"]]["kind"] == "enum":
+                vn = it.split("::")[-1]
+                a = prog.adts[ett["path"]]
+                idx = [j for j, vv in enumerate(a["variants"]) if vv["name"] == vn and not vv["fields"]]
+                if len(idx) == 1:
+                    out[(("a", i), "$discr")] = ICONST(prog.variant_discr(ett["path"], idx[0]))
+                    continue
+            return None
+        out[("$len",)] = ICONST(len(items))
+        return out
 
     def const_duration_secs(self, repr_):
         import re as _re
@@ -1272,9 +1327,14 @@ class Engine:
         if len(items) == 1:
             return items
         out = []
+        buckets = {}
         for st, prev in items:
             merged = False
-            for (o, oprev) in out:
+            # states can only merge when everything except compiler-generated flags agrees: bucket them by a signature
+            # of exactly that part, so that a join with thousands of states costs a linear pass, not a quadratic one
+            sig = self.merge_signature(fr, st) if len(items) > 8 else None
+            cand_list = buckets.setdefault(sig, []) if sig is not None else out
+            for (o, oprev) in cand_list:
                 if self.try_merge(fr, o, st):
                     if self.record and prev is not None and (fr.id, prev) not in self.inlined_nodes:
                         self.edges.add(((fr.id, prev), (fr.id, bb), "flow"))
@@ -1282,7 +1342,26 @@ class Engine:
                     break
             if not merged:
                 out.append((st, prev))
+                if sig is not None:
+                    buckets[sig].append((st, prev))
         return out
+
+    def merge_signature(self, fr, st):
+        h = 0
+        for r, d in st.store.items():
+            for k, v in d.items():
+                if self.is_flag_place(fr, r, k) and self.boolish(v):
+                    continue
+                h ^= hash((r, k, v))
+        hc = 0
+        for c in st.ctx.cons:
+            if not self.flag_only(c):
+                hc ^= hash(c)
+        hn = 0
+        for c in st.ctx.neqs:
+            if not self.flag_only(c):
+                hn ^= hash(c)
+        return (len(st.store), h, hc, hn)
 
     # ---- loops
     def exec_loop(self, fr, h, st_in):
